@@ -414,6 +414,35 @@ Fixpoint clear_bits (k : Z) (ks : list Z) (bv : list bool) : list bool :=
 
 (* handle_repair_data_send_worker at the pinned commit ([fixed] = false) and as repaired
    ([fixed] = true: a sample written for another single reader is treated as irrelevant). *)
+Definition is_some {A} (o : option A) : bool := match o with Some _ => true | None => false end.
+
+(* the DATA-or-GAP decision for the lowest unsent number: datagrams sent by send_cache_change,
+   the proxy after mark_change_sent / mark_all_frags_requested, and `no_longer_relevant`.
+   send_cache_change is called with send_also_heartbeat = false: the writer state is unchanged. *)
+Definition repair_decide (fixed : bool) (cf : cfg) (s : st) (r : Z) (p : proxy) (unsent_sn : Z)
+           (all_irrelevant_before : option Z) : list dgram * proxy * list Z :=
+  let pending_gaps := p_gap p in
+  if smem unsent_sn pending_gaps || is_some all_irrelevant_before
+  then ([], p, pending_gaps)
+  else
+    match get_by_sn unsent_sn (s_hist s) with
+    | Some cc =>
+        let other_single :=
+          match ch_single cc with Some g => negb (g =? r) | None => false end in
+        if fixed && other_single then ([], p, [unsent_sn])
+        else
+          let '(dg, fragmented, _) := send_cache_change cf s cc false (Some p) in
+          let pa := if fragmented
+                    then p_with_frags p
+                           (fset unsent_sn
+                                 (repeat true (Z.to_nat (num_frags (c_dmax cf)
+                                                            (len (ch_bytes cc)))))
+                                 (p_frags p))
+                    else p in
+          (dg, p_with_unsent pa (sdel unsent_sn (p_unsent pa)), [])
+    | None => ([], p, [unsent_sn])
+    end.
+
 Definition do_repair_tick_with (fixed : bool) (cf : cfg) (s : st) (r : Z) : st * out :=
   match rget r (s_readers s) with
   | None => (s, no_out)
@@ -421,34 +450,12 @@ Definition do_repair_tick_with (fixed : bool) (cf : cfg) (s : st) (r : Z) : st *
       match first_of (p_unsent p) with
       | None => (set_readers s (rset (p_with_repair p false) (s_readers s)), no_out)
       | Some unsent_sn =>
-          let pending_gaps := p_gap p in
           let first_available := s_first s in
           let all_irrelevant_before :=
             if unsent_sn <? first_available then Some first_available else None in
-          let '(dg1, p1, s1, no_longer_relevant) :=
-            if smem unsent_sn pending_gaps || nonempty (match all_irrelevant_before with
-                                                        | Some b => [b] | None => [] end)
-            then ([], p, s, pending_gaps)
-            else
-              match get_by_sn unsent_sn (s_hist s) with
-              | Some cc =>
-                  let other_single :=
-                    match ch_single cc with Some g => negb (g =? r) | None => false end in
-                  if fixed && other_single then ([], p, s, [unsent_sn])
-                  else
-                    let '(dg, fragmented, s') := send_cache_change cf s cc false (Some p) in
-                    let pa := if fragmented
-                              then p_with_frags p
-                                     (fset unsent_sn
-                                           (repeat true (Z.to_nat (num_frags (c_dmax cf)
-                                                                      (len (ch_bytes cc)))))
-                                           (p_frags p))
-                              else p in
-                    (dg, p_with_unsent pa (sdel unsent_sn (p_unsent pa)), s', [])
-              | None => ([], p, s, [unsent_sn])
-              end in
-          let send_gap := nonempty no_longer_relevant
-                          || match all_irrelevant_before with Some _ => true | None => false end in
+          let '(dg1, p1, no_longer_relevant) :=
+            repair_decide fixed cf s r p unsent_sn all_irrelevant_before in
+          let send_gap := nonempty no_longer_relevant || is_some all_irrelevant_before in
           let p2 := match all_irrelevant_before with
                     | Some b => p_with_unsent p1 (sfrom b (p_unsent p1))
                     | None => p1
@@ -461,7 +468,7 @@ Definition do_repair_tick_with (fixed : bool) (cf : cfg) (s : st) (r : Z) : st *
                            | Some b => [gap_before_sub b r] | None => [] end
                         ++ gap_subs no_longer_relevant r)]
             else [] in
-          (set_readers s1 (rset p3 (s_readers s1)), dg_out (dg1 ++ dg2))
+          (set_readers s (rset p3 (s_readers s)), dg_out (dg1 ++ dg2))
       end
   end.
 Definition do_repair_tick := do_repair_tick_with true.
@@ -611,7 +618,8 @@ Definition obs_eqb (a b : obs) : bool :=
                   depth_limit + #{samples not acknowledged by all matched reliable readers}.
    (A) answer   : a repair tick for reader r whose lowest requested number is u puts into a
                   datagram to r a GAP covering u or DATA / all DATAFRAGs of u with exactly the
-                  written bytes - unless u is a pending gap lying more than 255 above the lowest
+                  written bytes - unless u < 1 (an ACKNACK with base 0 can ask for number 0,
+                  which is never advertised) or u is a pending gap lying more than 255 above the lowest
                   pending gap (class [sparse_gap], see notes: not reachable for a number the
                   reader explicitly requested in its last ACKNACK).
    (H) heartbeat: every HEARTBEAT carries (first_seq, last_seq) of the history; last_seq = number
@@ -633,7 +641,8 @@ Definition ok_bound (cf : cfg) (o : op) (dp da : digest) : bool :=
   match o with
   | CacheClean =>
       negb (1 <=? depth_of cf)
-      || (len (g_hist da) <=? depth_of cf + (g_last dp + 1 - dig_acked_by_all dp))
+      || (len (g_hist da)
+          <=? depth_of cf + len (filter (fun sn => dig_acked_by_all dp <=? sn) (g_hist dp)))
   | _ => true
   end.
 
@@ -673,7 +682,7 @@ Definition ok_answer (cf : cfg) (w : list change) (o : op) (dp : digest) (dgs : 
       | Some p =>
           match first_of (d_unsent p) with
           | None => true
-          | Some u => sparse_gap u (d_gap p) || answered cf w r u dgs
+          | Some u => (u <? 1) || sparse_gap u (d_gap p) || answered cf w r u dgs
           end
       end
   | _ => true
